@@ -44,6 +44,7 @@ type FuncSpec struct {
 	PanicAssumed []string
 	PanicsIf     []*Clause // specified panics: panic allowed exactly under these conditions
 	Callbacks    map[string]*FuncSpec
+	Decr         *Clause // termination measure for recursive functions
 	InlineCalls  []string
 	GhostSets    []*GhostSet
 	GhostExits   []*GhostSet
@@ -62,6 +63,7 @@ type GhostDecl struct {
 }
 
 type SpecFunc struct {
+	Opaque bool // predicate: applied as an uninterpreted function with a defining axiom
 	Name   string
 	Params []QVar
 	Body   *Expr
@@ -92,6 +94,8 @@ type GhostSet struct {
 }
 
 type Specs struct {
+	Owned     map[string]bool // slice-typed fields whose backing arrays form their own heap region
+	OwnedDecl []*Hook
 	Hooks     []*Hook
 	Funcs     map[string]*FuncSpec
 	Ghosts    map[string]*GhostDecl
@@ -103,12 +107,12 @@ type Specs struct {
 var tagRe = regexp.MustCompile(`\s@C[0-9]{2,3}\b`)
 var labelRe = regexp.MustCompile(`^\[([A-Za-z0-9_.\-]+)\]\s*`)
 
-var clauseKeywords = map[string]bool{"inlinecalls": true, "assumes": true, "ghostset": true, "ghostexit": true, "preserves": true, "requires": true, "ensures": true, "modifies": true, "allocates": true,
+var clauseKeywords = map[string]bool{"decreases": true, "inlinecalls": true, "assumes": true, "ghostset": true, "ghostexit": true, "preserves": true, "requires": true, "ensures": true, "modifies": true, "allocates": true,
 	"loop": true, "inline": true, "assume": true, "pure": true, "props": true, "panic_assumed": true,
 	"panics_if": true, "callback": true, "nosafety": true, "params": true, "bounded": true}
 
 func newSpecs() *Specs {
-	return &Specs{Funcs: map[string]*FuncSpec{}, Ghosts: map[string]*GhostDecl{}, SpecFuncs: map[string]*SpecFunc{}}
+	return &Specs{Owned: map[string]bool{}, Funcs: map[string]*FuncSpec{}, Ghosts: map[string]*GhostDecl{}, SpecFuncs: map[string]*SpecFunc{}}
 }
 
 // loadSpecFile reads either a comment-only Go contract file (lines "//@ ...")
@@ -161,7 +165,7 @@ func (sp *Specs) loadSpecFile(path string) error {
 	var stmts []stmt
 	for i, t := range lines {
 		w := firstWord(t)
-		if w == "spec" || w == "prove" || w == "protected" || w == "onwrite" || w == "ghost" || w == "ghostfield" || w == "specfunc" || w == "lemma" || clauseKeywords[w] {
+		if w == "spec" || w == "owned" || w == "predicate" || w == "prove" || w == "protected" || w == "onwrite" || w == "ghost" || w == "ghostfield" || w == "specfunc" || w == "lemma" || clauseKeywords[w] {
 			stmts = append(stmts, stmt{strings.TrimSpace(t), nums[i]})
 		} else if len(stmts) > 0 {
 			stmts[len(stmts)-1].text += " " + strings.TrimSpace(t)
@@ -200,6 +204,12 @@ func (sp *Specs) loadSpecFile(path string) error {
 			cur = &FuncSpec{Key: key, File: path, Line: s.line, Params: params, Loops: map[int]*LoopSpec{}, Callbacks: map[string]*FuncSpec{}}
 			curCb = nil
 			sp.Funcs[key] = cur
+		case "owned":
+			te, err := parseExpr(strings.TrimSpace(rest))
+			if err != nil {
+				return errf("%v", err)
+			}
+			sp.OwnedDecl = append(sp.OwnedDecl, &Hook{Kind: "owned", Target: te, File: path, Line: s.line})
 		case "protected", "onwrite":
 			h := &Hook{Kind: w, File: path, Line: s.line, Src: rest}
 			for _, m := range tagRe.FindAllString(" "+rest, -1) {
@@ -295,7 +305,7 @@ func (sp *Specs) loadSpecFile(path string) error {
 			}
 			name := parts[0][i+1:]
 			sp.Ghosts[parts[0]] = &GhostDecl{Name: name, Type: ty, Field: true, Owner: parts[0][:i]}
-		case "specfunc":
+		case "specfunc", "predicate":
 			// specfunc name(a T, b U) = expr
 			eqi := strings.Index(rest, "=")
 			if eqi < 0 {
@@ -328,7 +338,7 @@ func (sp *Specs) loadSpecFile(path string) error {
 			if err != nil {
 				return errf("%v", err)
 			}
-			sp.SpecFuncs[name] = &SpecFunc{Name: name, Params: params, Body: be, Pkg: pkg}
+			sp.SpecFuncs[name] = &SpecFunc{Name: name, Params: params, Body: be, Pkg: pkg, Opaque: w == "predicate"}
 		case "lemma":
 			sp.Lemmas = append(sp.Lemmas, rest)
 		default:
@@ -497,6 +507,12 @@ func (sp *Specs) parseClause(fs *FuncSpec, w, rest, path string, line int) error
 		} else {
 			fs.GhostSets = append(fs.GhostSets, gs)
 		}
+	case "decreases":
+		c, err := parseClauseBody(rest, path, line)
+		if err != nil {
+			return err
+		}
+		fs.Decr = c
 	case "inlinecalls":
 		for _, it := range strings.Split(rest, ",") {
 			fs.InlineCalls = append(fs.InlineCalls, strings.TrimSpace(it))
